@@ -44,6 +44,13 @@ type Op struct {
 	Pre    []Op `json:"pre,omitempty"`
 	During []Op `json:"during,omitempty"`
 	Post   []Op `json:"post,omitempty"`
+	// fault oracles of alloc / dealloc (harness-controlled failures at the call sites of the real code):
+	// FM: for the duration of the call the Manager's subscriber_nat handle is a dead one (every map
+	//     syscall of the call fails); the real kernel map is what is dumped afterwards.
+	// FL: the log writer returns an error (and writes nothing) while the call and the flush of its
+	//     record run.
+	FM bool `json:"fm,omitempty"`
+	FL bool `json:"fl,omitempty"`
 }
 type Case struct {
 	PPS   int    `json:"pps"`
@@ -91,6 +98,7 @@ type lockedBuf struct {
 	yield atomic.Bool
 	slow  atomic.Bool
 	gate  atomic.Pointer[gate]
+	fail  atomic.Bool
 }
 
 // Write: harness-side behaviours of the writer (the code under test is unchanged):
@@ -99,6 +107,9 @@ type lockedBuf struct {
 //   gate  - the next Write announces itself on entered and waits for release (a flush held
 //           mid-batch, deterministically).
 func (l *lockedBuf) Write(p []byte) (int, error) {
+	if l.fail.Load() { // a failing sink (disk full, closed pipe): nothing is written
+		return 0, fmt.Errorf("verif: log sink refuses the write")
+	}
 	if g := l.gate.Swap(nil); g != nil {
 		close(g.entered)
 		<-g.release
@@ -130,6 +141,19 @@ type sys struct {
 	mode   string
 	lastTS time.Time
 	kmap   *ebpf.Map
+	dead   *ebpf.Map // a closed duplicate of kmap: every syscall through it fails
+}
+
+// mapFault swaps the Manager's subscriber_nat handle: dead for the duration of a faulted call.
+func (s *sys) mapFault(on bool) {
+	if s.kmap == nil {
+		return
+	}
+	if on {
+		s.mgr.VerifInjectMaps(nat.VerifNATMaps{SubscriberNAT: s.dead})
+	} else {
+		s.mgr.VerifInjectMaps(nat.VerifNATMaps{SubscriberNAT: s.kmap})
+	}
 }
 
 // newSubscriberNATMap creates a kernel hash map with the key/value sizes the Go side marshals
@@ -196,6 +220,12 @@ func newSys(c Case) *sys {
 			panic(err)
 		}
 		s.kmap = m
+		d, err := m.Clone()
+		if err != nil {
+			panic(err)
+		}
+		d.Close()
+		s.dead = d
 		mgr.VerifInjectMaps(nat.VerifNATMaps{SubscriberNAT: m})
 	}
 	if c.Log != "nil" {
@@ -334,8 +364,10 @@ func errClass(err error) int {
 		return 1
 	case strings.Contains(err.Error(), "already"):
 		return 2
-	case strings.Contains(err.Error(), "eBPF map"):
+	case strings.Contains(err.Error(), "failed to update eBPF map"):
 		return 3
+	case strings.Contains(err.Error(), "failed to delete"):
+		return 4
 	}
 	return 9
 }
@@ -363,8 +395,14 @@ func run(c Case) vh.Case {
 				res = "RNone"
 			}
 		case "alloc":
+			s.mapFault(o.FM)
+			s.buf.fail.Store(o.FL)
 			a, err := s.mgr.AllocateNAT(ip4(o.IP))
+			s.mapFault(false)
 			op = fmt.Sprintf("Alloc %d", o.IP)
+			if o.FM || o.FL {
+				op = fmt.Sprintf("AllocF %d %s %s", o.IP, vh.Bool(o.FM), vh.Bool(o.FL))
+			}
 			nAlloc++
 			if err != nil {
 				res = fmt.Sprintf("RErr %d", errClass(err))
@@ -387,8 +425,14 @@ func run(c Case) vh.Case {
 				}
 				delete(holders, o.IP)
 			}
+			s.mapFault(o.FM)
+			s.buf.fail.Store(o.FL)
 			err := s.mgr.DeallocateNAT(ip4(o.IP))
+			s.mapFault(false)
 			op = fmt.Sprintf("Dealloc %d", o.IP)
+			if o.FM || o.FL {
+				op = fmt.Sprintf("DeallocF %d %s %s", o.IP, vh.Bool(o.FM), vh.Bool(o.FL))
+			}
 			if err != nil {
 				res = fmt.Sprintf("RErr %d", errClass(err))
 			} else {
@@ -443,8 +487,18 @@ func run(c Case) vh.Case {
 		if o.K != "conc" && o.K != "race" && o.K != "gated" && o.K != "flusher" {
 			rs = s.drain()
 		}
+		s.buf.fail.Store(false)
 		after := time.Now().UTC()
 		tags["op:"+o.K] = true
+		if o.FM {
+			tags["fault:map:"+o.K] = true
+		}
+		if o.FL {
+			tags["fault:log:"+o.K] = true
+		}
+		if o.K == "dealloc" && strings.HasPrefix(res, "RErr 4") {
+			tags["saw:release-refused"] = true
+		}
 		if o.K == "alloc" {
 			if strings.HasPrefix(res, "RErr 3") {
 				tags["saw:map-update-failed"] = true
@@ -919,13 +973,14 @@ func genKmapTiny(r *vh.Rng, mode string) Case {
 			c.Ops = append(c.Ops, Op{K: "kdel", IP: foreignBase + 1 + uint32(r.Intn(2))})
 		case x < 50:
 			last = r.Intn(nsub)
-			c.Ops = append(c.Ops, Op{K: "alloc", IP: priv(last)})
+			c.Ops = append(c.Ops, Op{K: "alloc", IP: priv(last), FM: r.Chance(1, 5)})
 		case x < 62: // ask again for the subscriber of the last AllocateNAT (a retry after a failure)
 			c.Ops = append(c.Ops, Op{K: "alloc", IP: priv(last)})
 		case x < 72:
 			c.Ops = append(c.Ops, Op{K: "get", IP: priv(last)})
 		case x < 88:
-			c.Ops = append(c.Ops, Op{K: "dealloc", IP: priv(r.Intn(nsub))})
+			last = r.Intn(nsub)
+			c.Ops = append(c.Ops, Op{K: "dealloc", IP: priv(last), FM: r.Chance(1, 3)})
 		case x < 94:
 			c.Ops = append(c.Ops, Op{K: "stats"})
 		default:
@@ -941,8 +996,66 @@ func genKmapTiny(r *vh.Rng, mode string) Case {
 	return c
 }
 
+// genFaultExh: every fault pattern (none / map / log / both on each call) over every history of the
+// given length from {alloc 0, alloc 1, dealloc 0, dealloc 1} on a roomy kernel map, 2 blocks on one
+// address; then a fault-free tail: everybody retries, GetAllocation, a release, stats.
+func genFaultExh(depth int, mode string, emit func(Case)) {
+	kinds := []Op{{K: "alloc", IP: priv(0)}, {K: "alloc", IP: priv(1)}, {K: "dealloc", IP: priv(0)}, {K: "dealloc", IP: priv(1)}}
+	var rec func(ops []Op, d int)
+	rec = func(ops []Op, d int) {
+		if d == 0 {
+			c := Case{PPS: 4, Start: 1000, End: 1007, Log: mode, Buf: 10, KMax: 8}
+			c.Ops = append(c.Ops, Op{K: "addip", IP: pub(0)})
+			c.Ops = append(c.Ops, ops...)
+			c.Ops = append(c.Ops, Op{K: "alloc", IP: priv(0)}, Op{K: "alloc", IP: priv(1)}, Op{K: "alloc", IP: priv(2)},
+				Op{K: "get", IP: priv(0)}, Op{K: "get", IP: priv(1)}, Op{K: "dealloc", IP: priv(0)}, Op{K: "alloc", IP: priv(2)}, Op{K: "stats"})
+			emit(c)
+			return
+		}
+		for _, k := range kinds {
+			for f := 0; f < 4; f++ {
+				o := k
+				o.FM, o.FL = f&1 != 0, f&2 != 0
+				rec(append(ops[:len(ops):len(ops)], o), d-1)
+			}
+		}
+	}
+	rec(nil, depth)
+}
+
+// genFaultRandom: long histories on a roomy or a tiny kernel map with map and log faults sprinkled in.
+func genFaultRandom(r *vh.Rng, mode string, logFaults bool) Case {
+	c := Case{PPS: 1000, Start: 60000, End: 65535, Log: mode, Buf: []int{0, 1, 10}[r.Intn(3)], KMax: []int{2, 3, 64}[r.Intn(3)]}
+	c.Ops = append(c.Ops, Op{K: "addip", IP: pub(0)})
+	if r.Bool() {
+		c.Ops = append(c.Ops, Op{K: "addip", IP: pub(1)})
+	}
+	nsub := 3 + r.Intn(4)
+	n := 10 + r.Intn(30)
+	for len(c.Ops) < n {
+		w := priv(r.Intn(nsub))
+		switch x := r.Intn(100); {
+		case x < 40:
+			c.Ops = append(c.Ops, Op{K: "alloc", IP: w, FM: r.Chance(1, 4), FL: logFaults && r.Chance(1, 6)})
+		case x < 70:
+			c.Ops = append(c.Ops, Op{K: "dealloc", IP: w, FM: r.Chance(1, 3), FL: logFaults && r.Chance(1, 6)})
+		case x < 85:
+			c.Ops = append(c.Ops, Op{K: "get", IP: w})
+		case x < 92:
+			c.Ops = append(c.Ops, Op{K: "stats"})
+		default:
+			c.Ops = append(c.Ops, Op{K: "addip", IP: pub(r.Intn(3))})
+		}
+	}
+	for i := 0; i < nsub; i++ {
+		c.Ops = append(c.Ops, Op{K: "alloc", IP: priv(i)}, Op{K: "get", IP: priv(i)})
+	}
+	c.Ops = append(c.Ops, Op{K: "stats"})
+	return c
+}
+
 const kheader = `From Coq Require Import ZArith NArith List. Import ListNotations.
-From Verif Require Import Model.Nat Model.NatSpec Model.NatCheck.
+From Verif Require Import Model.Nat Model.NatSpec Model.NatK Model.NatKSpec Model.NatCheck.
 Local Open Scope Z_scope.
 Definition cases : list kcase := [
 `
@@ -1134,4 +1247,29 @@ func main() {
 	kcfg := cfg
 	kcfg.Shard = 10
 	vh.Emit(kcfg, "kmap", kheader, kfooter, km, map[string]interface{}{"kernel_bpf": true})
+
+	// fault injection at every map call and every log write of AllocateNAT / DeallocateNAT:
+	// small histories with every fault pattern (exhaustive), long random ones
+	fdepth, nFR := 2, 30
+	if cfg.Thorough() {
+		fdepth, nFR = 3, 400
+	}
+	var fx []vh.Case
+	fi := 0
+	for d := 1; d <= fdepth; d++ {
+		genFaultExh(d, "bulk", func(c Case) {
+			c.Log = []string{"bulk", "trad", "bulk", "trad-csv"}[fi%4]
+			fi++
+			fx = append(fx, run(c))
+		})
+	}
+	fcfg := cfg
+	fcfg.Shard = 100
+	vh.Emit(fcfg, "faults_exhaustive", kheader, kfooter, fx, map[string]interface{}{"kernel_bpf": true, "exhaustive": true, "depth": fdepth,
+		"space": "calls {alloc 0, alloc 1, dealloc 0, dealloc 1} x fault {none, map, log, map+log} on each call, every history of length <= depth, 2 blocks on one address, roomy kernel map; fault-free tail"})
+	var fr []vh.Case
+	for i := 0; i < nFR; i++ {
+		fr = append(fr, run(genFaultRandom(r.Fork(), logModes[i%len(logModes)], i%3 == 2)))
+	}
+	vh.Emit(kcfg, "faults", kheader, kfooter, fr, map[string]interface{}{"kernel_bpf": true})
 }
